@@ -23,21 +23,23 @@ PROVIDERS = {1: "zoneinfo", 2: "pytz"}
 
 
 class Fun:
-    def __init__(self, name, inputs, call, alpha, mutate, setup=None, modes=(1,)):
+    def __init__(self, name, inputs, call, alpha, mutate, setup=None, modes=(1,), bad=None):
         self.name, self.inputs, self.call, self.alpha, self.mutate, self.setup, self.modes = name, inputs, call, alpha, mutate, setup, tuple(modes)
+        self.bad = bad            # inputs on which the call must fail (an exception), leaving nothing behind
 
 
-def behaviours(ctx: Ctx, modes=(1,), max_calls=3, max_ops=5):
-    key = (tuple(modes), max_calls, max_ops)
+def behaviours(ctx: Ctx, modes=(1,), max_calls=3, max_ops=5, fails=False):
+    key = (tuple(modes), max_calls, max_ops, fails)
     if key in _VECS:
         return _VECS[key]
-    consts = {"Funs": {"f"}, "Inputs": {1, 2} if len(modes) == 1 else {1}, "Modes": set(modes), "MaxCalls": max_calls, "MaxOps": max_ops}
+    consts = {"Funs": {"f"}, "Inputs": {1, 2} if len(modes) == 1 else {1}, "Modes": set(modes), "MaxCalls": max_calls, "MaxOps": max_ops,
+              "Fails": fails}
     r = ctx.mc("MC_Fresh", cfg_text(spec="Spec", constants={**consts, "Memo": "none"},
                                     invariants=["Independence", "FreshIdentity", "Vec"]), workers=2, timeout=600)
     vecs = r.prints
     if len(vecs) < 20:
         raise Machinery(f"MC_Fresh: too few behaviours {len(vecs)}")
-    for memo in ("shared", "stale") if len(modes) > 1 else ("shared",):
+    for memo in (("shared", "stale") if len(modes) > 1 else ("shared",)) + (("residue",) if fails else ()):
         g = ctx.mc("MC_Fresh", cfg_text(spec="Spec", constants={**consts, "Memo": memo}, invariants=["Independence"]),
                    expect_ok=False, count=False, workers=1, timeout=600)
         if g.ok or "Independence" not in str(g.violated):
@@ -110,6 +112,13 @@ def replay(ctx: Ctx, pid: str, fun: Fun, vecs, ref, passes=1):
                         if op["op"] == "switch":
                             tzp.use(PROVIDERS[op["m"]])
                             continue
+                        if op["op"] == "fail":
+                            badin = fun.bad[(step + p) % len(fun.bad)]
+                            try:
+                                fun.call(badin) if state is None else fun.call(badin, state)
+                            except Exception:   # noqa: BLE001  (the failure itself is the point)
+                                pass
+                            continue
                         if op["op"] == "call":
                             inp = fun.inputs[x - 1]
                             handles[h] = (x, op["m"], fun.call(inp) if state is None else fun.call(inp, state))
@@ -156,7 +165,7 @@ def _alpha_params(P):
 
 def registry():
     from icalendar import Calendar, Event, Todo, Component, Timezone, Alarm, vRecur
-    from icalendar.parser import Contentline, Contentlines, Parameters
+    from icalendar.parser import Contentline, Contentlines, Parameters, foldline
     from icalendar.prop import vCategory, vDDDLists, vDDDTypes
     from icalendar.caselessdict import CaselessDict
     from vf import parsercommon as pc
@@ -214,14 +223,15 @@ def registry():
 
     F = {}
     F["C05"] = [
-        Fun("Contentline.parts", ["ATTENDEE;CN=Max;ROLE=CHAIR:mailto:a@example.com", "X-LINE;P=\"a,b\",c;Q=d:value;with:delims"],
-            lambda x: Contentline(x).parts(), lambda r: [r[0], _alpha_params(r[1]), r[2]], lambda r: mutate_params(r[1])),
+        Fun("Contentline.parts", ["ATTENDEE;CN=Max;ROLE=CHAIR:mailto:a@example.com", "SUMMARY:a line without parameters"],
+            lambda x: Contentline(x).parts(), lambda r: [r[0], _alpha_params(r[1]), r[2]], lambda r: mutate_params(r[1]),
+            bad=["no colon or name", ";=:", "N;P=\"unterminated:v"]),
         Fun("Contentlines.from_ical", ["A:1\r\nB;X=1:2\r\n", "SUMMARY:long " + "x" * 100 + "\r\n"],
             lambda x: Contentlines.from_ical(x), lambda r: [str(ln) for ln in r], lambda r: r.append(Contentline("C:3"))),
     ]
     F["C08"] = [
         Fun("Parameters.from_ical", ["CN=Max;MEMBER=\"mailto:a@x\",\"mailto:b@x\"", "X-P=1,2,3;ROLE=CHAIR"],
-            lambda x: Parameters.from_ical(x), _alpha_params, mutate_params),
+            lambda x: Parameters.from_ical(x), _alpha_params, mutate_params, bad=["x=\"", "=", "A=1;A"]),
         Fun("parsed property params", [cal_a, cal_b],
             lambda x: [v.params for c in parsed(x).walk() for k in c.keys() for v in (c[k] if isinstance(c[k], list) else [c[k]]) if hasattr(v, "params")],
             lambda r: [_alpha_params(p) for p in r], lambda r: [mutate_params(p) for p in r]),
@@ -229,11 +239,13 @@ def registry():
     F["C19"] = [
         Fun("vRecur.from_ical", ["FREQ=WEEKLY;COUNT=4;BYDAY=MO", "FREQ=YEARLY;BYMONTH=5,5L;BYDAY=-1SU;UNTIL=20301231T000000Z;INTERVAL=2"],
             lambda x: vRecur.from_ical(x), lambda r: [[k, [repr(i) for i in v] if isinstance(v, list) else repr(v)] for k, v in r.items()] + [_alpha_params(r.params)],
-            mutate_recur),
+            mutate_recur, bad=["FREQ", "FREQ=DAILY;COUNT=x", "=;="]),
         Fun("parsed RRULE", ["BEGIN:VEVENT\r\nRRULE:FREQ=WEEKLY;COUNT=4;BYDAY=MO\r\nEND:VEVENT\r\n", "BEGIN:VTODO\r\nRRULE:FREQ=DAILY;BYHOUR=1,2;BYSETPOS=-1\r\nEND:VTODO\r\n"],
             lambda x: Component.from_ical(x)["RRULE"], lambda r: [[k, [repr(i) for i in v]] for k, v in r.items()] + [_alpha_params(r.params)], mutate_recur),
     ]
-    tree = Fun("Component.from_ical", [cal_a, cal_b], parsed, lambda c: pc.full_alpha(c), mutate_tree)
+    tree = Fun("Component.from_ical", [cal_a, cal_b], parsed, lambda c: pc.full_alpha(c), mutate_tree,
+               bad=["BEGIN:VCALENDAR\r\nBEGIN:VTODO\r\nDUE;TZID=Europe/Berlin:garbage\r\nEND:VTODO\r\nEND:VCALENDAR\r\n", "BEGIN:VEVENT\r\nSUMMARY;X=1:half",
+                    cal_a[:len(cal_a) // 2], "END:VCALENDAR\r\n"])
     F["C01"] = [tree, Fun("Component.from_ical (providers)", [cal_b], parsed, lambda c: pc.full_alpha(c), mutate_tree, modes=(1, 2))]
     cal_lc = ("begin:vcalendar\nversion:2.0\nbegin:vevent\nuid:a\ndtstart;tzid=Europe/Berlin:20240701T100000\nsummary;language=en:One\n"
               "rrule:FREQ=WEEKLY;BYDAY=MO,TU\ncategories:x,\n\ty\nend:vevent\nend:vcalendar\n")
@@ -301,6 +313,13 @@ def registry():
         Fun("property_items", [cal_a, cal_b], lambda x, st: st.setdefault(x, parsed(x)).property_items(), lambda r: [[k, v.to_ical().decode() if hasattr(v, "to_ical") else str(v)] for k, v in r],
             lambda r: r.append(("X", "1")), setup=dict),
     ]
+    F["C06"] = [
+        Fun("foldline", ["SUMMARY:" + "\u00e9" * 90, "DESCRIPTION:" + "x" * 70 + "\U0001F600" * 20], lambda x: [foldline(x)], list, lambda r: r.append("added"),
+            bad=["\u00e9" * 40 + "\ud800" + "\u00e9" * 60, "a\nb"]),
+        Fun("Contentlines.to_ical", [["SUMMARY:" + "\u4e2d" * 38, "UID:1"], ["DESCRIPTION:" + "\u00e9" * 200]],
+            lambda x: [Contentlines([Contentline(ln) for ln in x]).to_ical()], lambda r: [i.decode("utf-8") if isinstance(i, bytes) else i for i in r],
+            lambda r: r.append("added"), bad=[["SUMMARY:\u00e9\ud800"]]),
+    ]
     F["C03"] = [
         Fun("vDDDLists.from_ical", ["20240105T090000,20240106T090000", "20240105"], lambda x: vDDDLists.from_ical(x), lambda r: [repr(d) for d in r],
             lambda r: r.append(datetime(2000, 1, 1))),
@@ -315,7 +334,7 @@ def step(ctx: Ctx, pid: str, passes=None):
     ref = reference(pid)
     n = 0
     for f in funs:
-        n += replay(ctx, pid, f, behaviours(ctx, f.modes), ref, passes or (1 if ctx.quick else 3))
+        n += replay(ctx, pid, f, behaviours(ctx, f.modes, fails=bool(f.bad)), ref, passes or (1 if ctx.quick else 3))
     ctx.assumptions.append(
         "FRESH: a caller may mutate the object a call handed to it; later calls and other handles must not see that, nor results computed "
         "under the other provider (spec/Fresh.tla); the reference views are computed in a fresh interpreter per provider")
